@@ -7,7 +7,7 @@ CA = APP + "/src/app/compass/compass_app.rs"
 mb = KaniUnit("c06_mb", APP, modules=[dict(file=OPS, src="c06_min_bin.rs")],
               harnesses=[H("c06_min_bin_contract", "bounded", "min_bin on the real code: Err iff empty; otherwise the index of a least total", bound="<= 3 bins, finite non-negative totals", timeout=150)])
 wit = KaniUnit("c06_wit", APP, modules=[dict(file=CA, src="app_wit.rs")], harnesses=[])
-wit.native_witnesses = ["c06_wit_one_response_per_query", "c12_wit_rejected_only_batches", "c06_wit_malformed_weight_estimate_does_not_fail_the_batch", "c06_wit_failing_child_of_an_expansion_does_not_take_its_siblings"]
+wit.native_witnesses = ["c06_wit_one_response_per_query", "c12_wit_rejected_only_batches", "c06_wit_malformed_weight_estimate_does_not_fail_the_batch", "c06_wit_failing_child_of_an_expansion_does_not_take_its_siblings", "c17_wit_flatten_partial_expansion"]
 UNITS = [VerusUnit("c06_balance", "c06_balance", rlimit=60), VerusUnit("c06_output", "c06_output", rlimit=30), VerusUnit("c08_vehicle", "c08_vehicle", rlimit=60), mb, wit]
 EXPLANATION = ("the heart of C06 -- independence of the response multiset from the rayon schedule, from par_chunks chunking and from batch order; isolation of a failing query; the shared prediction cache -- is NOT decided: "
                "Kani has no threads, Verus has no model of rayon, and a contract on CompassApp::run would have to assume rayon's semantics, which is the property. Decided: apply_load_balancing_policy (Verus, any batch and "
